@@ -76,26 +76,45 @@ def measBasisOps (w : PWord) : List Op :=
     | some (_, nm, k) => (Gate.toOp ⟨nm, [q], none, .ang (Ang.piQuarter k), false⟩)
     | none => none)
 
-/-- `get_expectation_value_from_frequencies_oneterm`: Σ_x (−1)^{|x ∧ mask|} f(x) over exact frequencies
-    (model index: bit q = qubit q) -/
-def expectFromProbs (n : Nat) (a : SV) (w : PWord) : Cyc :=
-  (List.range a.size).foldl (fun acc i =>
-    let par := w.foldl (fun p (q, _) => xor p (i.testBit q)) false
-    let p := Cyc.normSq (a.getD i 0)
-    if par then acc - p else acc + p) 0
+/-- the samples of one term on exact frequencies: for every basis state (model index: bit q = qubit q)
+    the parity of the masked bitstring and the frequency -/
+def sampleList (a : SV) (w : PWord) : List (Bool × Cyc) :=
+  (List.range a.size).map (fun i => (w.foldl (fun p (q, _) => xor p (i.testBit q)) false, Cyc.normSq (a.getD i 0)))
+
+/-- `get_expectation_value_from_frequencies_oneterm`: Σ_x (−1)^{|x ∧ mask|} f(x) -/
+def expectSamples {R : Type} [Add R] [Sub R] [Zero R] (l : List (Bool × R)) : R :=
+  l.foldl (fun acc (pf : Bool × R) => if pf.1 then acc - pf.2 else acc + pf.2) 0
+
+/-- `get_variance_from_frequencies_oneterm`: Σ f (E − s)² with s = ±1 -/
+def varianceSamples {R : Type} [Add R] [Sub R] [Mul R] [Neg R] [Zero R] [One R] (l : List (Bool × R)) : R :=
+  let e := expectSamples l
+  l.foldl (fun acc (pf : Bool × R) => acc + pf.2 * ((e - (if pf.1 then -1 else 1)) * (e - (if pf.1 then -1 else 1)))) 0
+
+def expectFromProbs (_n : Nat) (a : SV) (w : PWord) : Cyc := expectSamples (sampleList a w)
 
 /-- frequency route for one term: rotate into the measurement basis, then the parity rule -/
 def expectWordFreqRoute (n : Nat) (a : SV) (w : PWord) : Cyc :=
   expectFromProbs n (simOps n (measBasisOps w) a) w
 
-/-- `get_variance_from_frequencies_oneterm` on exact frequencies: Σ f (E − s)² -/
 def varianceWord (n : Nat) (a : SV) (w : PWord) : Cyc :=
-  let b := simOps n (measBasisOps w) a
-  let e := expectFromProbs n b w
-  (List.range b.size).foldl (fun acc i =>
-    let par := w.foldl (fun p (q, _) => xor p (i.testBit q)) false
-    let s : Cyc := if par then -1 else 1
-    acc + Cyc.normSq (b.getD i 0) * ((e - s) * (e - s))) 0
+  varianceSamples (sampleList (simOps n (measBasisOps w) a) w)
+
+/-- a row (letter, gate, k) of the measurement-basis table is right when B = gate(kπ/4) satisfies B†·Z·B = letter -/
+def measBasisRowOk (row : String × String × Int) : Bool :=
+  let P : Option (M2 Cyc) := match row.1 with
+    | "X" => some (baseMatrix cycConsts .X 0) | "Y" => some (baseMatrix cycConsts .Y 0) | _ => none
+  let b : Option Base := match row.2.1 with | "RX" => some .RX | "RY" => some .RY | "RZ" => some .RZ | _ => none
+  match P, b with
+  | some P, some b =>
+    let B := baseMatrix cycConsts b (Ang.piQuarter row.2.2)
+    let Bd := baseMatrix cycConsts b (Ang.piQuarter (-row.2.2))
+    let M := M2.mul Bd (M2.mul (baseMatrix cycConsts .Z 0) B)
+    M.a == P.a && M.b == P.b && M.c == P.c && M.d == P.d
+  | _, _ => false
+
+/-- X and Y are rotated as the table says and both are present; Z needs no rotation -/
+def measBasisOk : Bool :=
+  Tables.measBasis.all measBasisRowOk && (Tables.measBasis.map (·.1)) == ["X", "Y"]
 
 end Tangelo
 
